@@ -6,6 +6,7 @@ import Proofs.RdataTextField2
 import Proofs.RdataTextField3
 import Proofs.RdataTextBitmap
 import Proofs.RdataTextB32
+import Proofs.RdataTextField4
 /-! Records: fields joined by spaces, tails, and the schema-generic round trip through `dns.rdata.from_text` (C05). -/
 namespace Model
 
@@ -34,6 +35,10 @@ def FieldOk (st : Style) (env : PEnv) : FK → FV → Prop
   | .keyProto, .n v => v ≤ 255
   | .sigtime, .n v => v < 4294967296
   | .b32hex, .b s => (∀ x ∈ s, x < 256) ∧ s ≠ [] ∧ s.length ≤ 255
+  | .hexOne, .b s => (∀ x ∈ s, x < 256) ∧ s ≠ [] ∧ s.length ≤ 255
+  | .b64One, .b s => (∀ x ∈ s, x < 256) ∧ s ≠ []
+  | .rcode, .n v => v ≤ 4095
+  | .nameRaw, .nm n => WfName n ∧ OctetsOk n ∧ chooseRelativity n st.origin st.relativize = .ok n
   | _, _ => False
 
 theorem field_ip6 (st : Style) (env : PEnv) (a : Bytes) (hlen : a.length = 16) (ha : ∀ x ∈ a, x < 256) :
@@ -82,6 +87,10 @@ theorem field_rt (st : Style) (env : PEnv) (k : FK) (v : FV) (h : FieldOk st env
   case keyFlags.n v => exact ⟨_, _, field_keyFlags st env v h⟩
   case keyProto.n v => exact ⟨_, _, field_keyProto st env v h⟩
   case sigtime.n v => obtain ⟨t, ht⟩ := field_sigtime st env v h; exact ⟨_, _, ht⟩
+  case hexOne.b s => exact ⟨_, _, field_hexOne st env s h.1 h.2.1 h.2.2⟩
+  case b64One.b s => exact ⟨_, _, field_b64One st env s h.1 h.2⟩
+  case rcode.n v => obtain ⟨t, ht⟩ := field_rcode st env v h; exact ⟨_, _, ht⟩
+  case nameRaw.nm n => exact ⟨_, _, field_nameRaw st env n h.1 h.2.1 h.2.2⟩
   case b32hex.b s => exact ⟨_, _, field_b32hex st env s h.1 h.2.1 h.2.2 (b32_roundtrip s h.1)⟩
 
 def FieldsOk (st : Style) (env : PEnv) : List FK → List FV → Prop
@@ -122,7 +131,7 @@ theorem flatMap_singleton_map {α β : Type} (f : α → β) (l : List α) : l.f
 
 /-! ## tails -/
 
-def TailOk (st : Style) (vals : List FV) : TK → Option FV → Prop
+def TailOk (st : Style) (env : PEnv) (vals : List FV) : TK → Option FV → Prop
   | .none, none => True
   | .hex, some (.b d) => d ≠ [] ∧ (∀ x ∈ d, x < 256) ∧ ChunkOk st.hexChunk st.hexSep
   | .b64 fixed0, some (.b d) => d ≠ [] ∧ (∀ x ∈ d, x < 256) ∧ ChunkOk (if fixed0 then 0 else st.b64Chunk) st.b64Sep
@@ -132,6 +141,9 @@ def TailOk (st : Style) (vals : List FV) : TK → Option FV → Prop
     (keyIsNoKey vals = true ∧ d = []) ∨
     (keyIsNoKey vals = false ∧ d ≠ [] ∧ (∀ x ∈ d, x < 256) ∧ ChunkOk st.b64Chunk st.b64Sep)
   | .bitmap, some (.wl ws) => WfWins ws
+  | .names, some (.nl ns) => ∀ n ∈ ns, NameFieldOk st env n
+  | .b64Opt, some (.b d) => ∀ x ∈ d, x < 256
+  | .tsigOther, some (.b d) => (∀ x ∈ d, x < 256) ∧ vals[7]? = some (.n d.length)
   | _, _ => False
 
 def HeadNotHash (toks : List Tok) : Prop := ∀ t, toks.head? = some t → NotHash t
@@ -165,32 +177,81 @@ theorem parseTxt_quoted (E : Bytes → List Nat) (ss : List Bytes)
     have hle : ¬ s.length > 255 := by omega
     simp [parseTxt, hu, ih (fun x hx => h x (by simp [hx])), hle]
 
-theorem tail_rt (st : Style) (vals : List FV) (tk : TK) (tail : Option FV) (h : TailOk st vals tk tail) (hnb : tk ≠ .bitmap) :
+theorem tail_rt (st : Style) (env : PEnv) (vals : List FV) (tk : TK) (tail : Option FV) (h : TailOk st env vals tk tail) (hnb : tk ≠ .bitmap) :
     ∃ items : List (List Nat × List Tok),
       printTail st tk tail = some (items.map (·.1)) ∧ (∀ p ∈ items, Lexes p.1 p.2) ∧
-      parseTail vals tk (items.flatMap (·.2)) = some tail ∧ HeadNotHash (items.flatMap (·.2)) := by
+      parseTailE env vals tk (items.flatMap (·.2)) = some tail ∧ HeadNotHash (items.flatMap (·.2)) := by
   cases tk <;> cases tail <;> simp only [TailOk] at h <;> try exact h.elim
   case none.none =>
-    exact ⟨[], by simp [printTail], by simp, by simp [parseTail], by intro t ht; simp at ht⟩
+    exact ⟨[], by simp [printTail], by simp, by simp [parseTailE, parseTail], by intro t ht; simp at ht⟩
   all_goals rename_i v; cases v <;> simp only [TailOk] at h <;> try exact h.elim
   case bitmap.some.wl ws => exact absurd rfl hnb
   case keyB64.some.b d =>
     rcases h with ⟨hk, rfl⟩ | ⟨hk, hne, hd, hc⟩
-    · refine ⟨[([], [])], by simp [printTail, b64Encode, wordbreak, chunksOf, joinSep], ?_, by simp [parseTail, hk],
+    · refine ⟨[([], [])], by simp [printTail, b64Encode, wordbreak, chunksOf, joinSep], ?_, by simp [parseTailE, parseTail, hk],
         by intro t ht; simp at ht⟩
       intro p hp; simp at hp; subst hp; exact lexes_nil
     · have hnil : b64Encode d ≠ [] := fun e => hne ((b64Encode_eq_nil d).mp e)
       obtain ⟨hl, hcat, hnh⟩ := blob_tail b64Encode b64Decode d hne (b64Encode_plain d) (b64_roundtrip d hd) hnil _ _ hc
       refine ⟨[(wordbreak (b64Encode d) st.b64Chunk st.b64Sep, identToks (wordbreakChunks (b64Encode d) st.b64Chunk))],
         by simp [printTail], by simpa using hl, ?_, by simpa using hnh⟩
-      simp [parseTail, hk, hcat, b64_roundtrip d hd]
+      simp [parseTailE, parseTail, hk, hcat, b64_roundtrip d hd]
+  case names.some.nl ns =>
+    -- one identifier per name
+    induction ns with
+    | nil => exact ⟨[], by simp [printTail, printNames], by simp, by simp [parseTailE, parseNames], by intro t ht; simp at ht⟩
+    | cons n rest ih =>
+      obtain ⟨m, hp, hw, ho, hb⟩ := h n (by simp)
+      obtain ⟨items, ip, il, ipa, ihd⟩ := ih (fun x hx => h x (by simp [hx]))
+      obtain ⟨hlex, hnh⟩ := toText_lexes m hw ho
+      have ip' : printNames st rest = some (items.map (·.1)) := by simpa [printTail] using ip
+      have ipa' : parseNames env (items.flatMap (·.2)) = some rest := by
+        simp only [parseTailE, if_true, Option.map_eq_some_iff] at ipa
+        obtain ⟨a, ha, hb'⟩ := ipa
+        simp at hb'; subst hb'; exact ha
+      refine ⟨(toText m, [⟨.ident, toText m⟩]) :: items, ?_, ?_, ?_, ?_⟩
+      · simp [printTail, printNames, nameToStyled, hp, ip']
+      · intro p hpm; simp at hpm; rcases hpm with e | e
+        · subst e; exact hlex
+        · exact il p e
+      · simp [parseTailE, parseNames, asName_toText env m hw ho, hb, ipa']
+      · intro t ht; simp at ht; subst ht; exact hnh
+  case b64Opt.some.b d =>
+    by_cases hd0 : d = []
+    · subst hd0
+      exact ⟨[], by simp [printTail], by simp, by simp [parseTailE, parseTail, concatIdents, b64Decode], by intro t ht; simp at ht⟩
+    · have hp := b64Encode_plain d
+      have hn : b64Encode d ≠ [] := fun e => hd0 ((b64Encode_eq_nil d).mp e)
+      refine ⟨[(b64Encode d, [⟨.ident, b64Encode d⟩])], by simp [printTail, hd0], ?_, ?_, ?_⟩
+      · intro p hp'; simp at hp'; subst hp'; exact lexes_plain _ hn hp
+      · have hne' : (b64Encode d).isEmpty = false := by
+          cases hx : b64Encode d with
+          | nil => exact absurd hx hn
+          | cons _ _ => rfl
+        simp [parseTailE, parseTail, concatIdents, concatIdents.go, unescapeCP_plain_all _ hp, b64_roundtrip d h]
+      · intro t ht; simp at ht; subst ht; exact notHash_plain _ hp
+  case tsigOther.some.b d =>
+    obtain ⟨hd, hv⟩ := h
+    by_cases hd0 : d = []
+    · subst hd0
+      refine ⟨[], by simp [printTail], by simp, ?_, by intro t ht; simp at ht⟩
+      simp at hv
+      simp [parseTailE, parseTail, hv]
+    · have hp := b64Encode_plain d
+      have hn : b64Encode d ≠ [] := fun e => hd0 ((b64Encode_eq_nil d).mp e)
+      have hlen : d.length ≠ 0 := by
+        intro e; exact hd0 (List.eq_nil_of_length_eq_zero e)
+      refine ⟨[(b64Encode d, [⟨.ident, b64Encode d⟩])], by simp [printTail, hd0], ?_, ?_, ?_⟩
+      · intro p hp'; simp at hp'; subst hp'; exact lexes_plain _ hn hp
+      · simp [parseTailE, parseTail, hv, hlen, unescapeCP_plain_all _ hp, b64_roundtrip d hd]
+      · intro t ht; simp at ht; subst ht; exact notHash_plain _ hp
   case hex.some.b d =>
     obtain ⟨hne, hd, hc⟩ := h
     have hnil : hexlify d ≠ [] := fun e => hne ((hexlify_eq_nil d).mp e)
     obtain ⟨hl, hcat, hnh⟩ := blob_tail hexlify unhexlify d hne (hexlify_plain d hd) (unhexlify_hexlify d hd) hnil _ _ hc
     refine ⟨[(wordbreak (hexlify d) st.hexChunk st.hexSep, identToks (wordbreakChunks (hexlify d) st.hexChunk))],
       by simp [printTail], by simpa using hl, ?_, by simpa using hnh⟩
-    simp [parseTail, hcat, unhexlify_hexlify d hd]
+    simp [parseTailE, parseTail, hcat, unhexlify_hexlify d hd]
   case b64.some.b fixed0 d =>
     obtain ⟨hne, hd, hc⟩ := h
     have hnil : b64Encode d ≠ [] := fun e => hne ((b64Encode_eq_nil d).mp e)
@@ -198,7 +259,7 @@ theorem tail_rt (st : Style) (vals : List FV) (tk : TK) (tail : Option FV) (h : 
     refine ⟨[(wordbreak (b64Encode d) (if fixed0 then 0 else st.b64Chunk) st.b64Sep,
         identToks (wordbreakChunks (b64Encode d) (if fixed0 then 0 else st.b64Chunk)))],
       by simp [printTail], by simpa using hl, ?_, by simpa using hnh⟩
-    simp [parseTail, hcat, b64_roundtrip d hd]
+    simp [parseTailE, parseTail, hcat, b64_roundtrip d hd]
   case txt.some.bl ss =>
     obtain ⟨hne, hs⟩ := h
     -- one quoted token per string, in the octet or the Unicode form (`txt_is_utf8`)
@@ -224,7 +285,7 @@ theorem tail_rt (st : Style) (vals : List FV) (tk : TK) (tail : Option FV) (h : 
       rw [e1, e2] at this; exact this
     · have hne' : ss ≠ [] := hne
       have hp := parseTxt_quoted E ss (fun s hsm => ⟨(hE s hsm).2, (hs s hsm).2⟩)
-      simp [parseTail, hp, hne']
+      simp [parseTailE, parseTail, hp, hne']
     · intro t ht
       cases ss with
       | nil => exact absurd rfl hne
@@ -234,13 +295,13 @@ theorem tail_rt (st : Style) (vals : List FV) (tk : TK) (tail : Option FV) (h : 
     have hesc := escROk_generated
     by_cases he : s = []
     · subst he
-      exact ⟨[], by simp [printTail], by simp, by simp [parseTail], by intro t ht; simp at ht⟩
+      exact ⟨[], by simp [printTail], by simp, by simp [parseTailE, parseTail], by intro t ht; simp at ht⟩
     · have hlex := lexes_quoted (escapifyR s) (quoteBody_escapify _ hesc s ho)
       have hu : unescapeBytes (escapifyR s) = some s := unescapeBytes_escapify _ hesc s ho
       have hle : ¬ s.length > 255 := by omega
       refine ⟨[(quote (escapifyR s), [⟨.quoted, escapifyR s⟩])], by simp [printTail, he], ?_, ?_, ?_⟩
       · intro p hp; simp at hp; subst hp; simpa [quote] using hlex
-      · simp [parseTail, hu, bytesMax, hle]
+      · simp [parseTailE, parseTail, hu, bytesMax, hle]
       · intro t ht; simp at ht; subst ht; exact Or.inl rfl
 
 /-! ## the whole record through `dns.rdata.from_text` -/
@@ -263,14 +324,14 @@ theorem joinSep_snoc (fs : List (List Nat)) (x : List Nat) (h : fs ≠ []) :
   simp [joinSep]
 
 theorem record_roundtrip (tn : String) (sch : Schema) (hsch : schemaOf tn = some sch) (st : Style) (env : PEnv)
-    (vals : List FV) (tail : Option FV) (hf : FieldsOk st env sch.fields vals) (ht : TailOk st vals sch.tail tail)
+    (vals : List FV) (tail : Option FV) (hf : FieldsOk st env sch.fields vals) (ht : TailOk st env vals sch.tail tail)
     (hbf : sch.tail = .bitmap → sch.fields ≠ []) (hchk : sch.check vals tail = true) :
     ∃ text, printRec sch st vals tail = some text ∧ fromTextRdata (some tn) env text = some (.known vals tail) := by
   obtain ⟨fi, fp, fl, fpa, fnh, flen⟩ := fields_rt st env sch.fields vals hf
   -- the tail: its printed items, their tokens, and the parse
   have key : ∃ ti : List (List Nat × List Tok),
       printRec sch st vals tail = some (joinSep [32] (fi.map (·.1) ++ ti.map (·.1))) ∧ (∀ p ∈ ti, Lexes p.1 p.2) ∧
-      parseTail vals sch.tail (ti.flatMap (·.2)) = some tail ∧ HeadNotHash (ti.flatMap (·.2)) := by
+      parseTailE env vals sch.tail (ti.flatMap (·.2)) = some tail ∧ HeadNotHash (ti.flatMap (·.2)) := by
     by_cases hb : sch.tail = .bitmap
     · rw [hb] at ht
       cases tail with
@@ -289,14 +350,14 @@ theorem record_roundtrip (tn : String) (sch : Schema) (hsch : schemaOf tn = some
         · subst hws
           refine ⟨[], ?_, by simp, ?_, by intro t ht'; simp at ht'⟩
           · simp [printRec, hb, fp, bitmapText]
-          · rw [hb]; simpa [bitmapNames, identToks] using hparse
+          · rw [hb]; simpa [parseTailE, bitmapNames, identToks] using hparse
         · refine ⟨[(joinSep [32] (bitmapNames ws), identToks (bitmapNames ws))], ?_, ?_, ?_, ?_⟩
           · simp only [printRec, hb, hall, if_true, fp, Option.map_some, List.map_cons, List.map_nil]
             rw [bitmapText_eq ws ht hws, joinSep_snoc _ _ hfne]
           · intro p hp; simp at hp; subst hp; exact hlex hws
-          · rw [hb]; simpa using hparse
+          · rw [hb]; simpa [parseTailE] using hparse
           · simpa [HeadNotHash] using hhead
-    · obtain ⟨ti, tp, tl, tpa, tnh⟩ := tail_rt st vals sch.tail tail ht hb
+    · obtain ⟨ti, tp, tl, tpa, tnh⟩ := tail_rt st env vals sch.tail tail ht hb
       refine ⟨ti, ?_, tl, tpa, tnh⟩
       unfold printRec
       cases hk : sch.tail with
